@@ -243,6 +243,27 @@ def _star_shaped(cr, kind, lmax):
     return True
 
 
+def _surface_inside_bounds(cfg, bounds, ndir=6000, margin=0.05):
+    """Stockholder weight of the inner set at both search bounds along a dense set of directions from the float32 centroid:
+    clearly inside (> 0.5 + margin) at the lower and clearly outside (< 0.5 - margin) at the upper bound, everywhere?"""
+    import numpy as np
+    from chmpy import StockholderWeight
+    els, pos = arrays(cfg["inner"])
+    ne, pe = arrays(cfg["outer"])
+    s = StockholderWeight.from_arrays(els, pos, ne, pe)
+    o = np.mean(pos, axis=0, dtype=np.float32).astype(float)
+    k = np.arange(ndir) + 0.5
+    phi = np.arccos(1 - 2 * k / ndir)
+    th = np.pi * (1 + 5 ** 0.5) * k
+    g = np.c_[np.cos(th) * np.sin(phi), np.sin(th) * np.sin(phi), np.cos(phi)]
+    lo, hi = bounds
+    wlo = np.asarray(s.weights((o[None, :] + lo * g).astype(np.float32)), dtype=float)
+    whi = np.asarray(s.weights((o[None, :] + hi * g).astype(np.float32)), dtype=float)
+    # and a little inside the upper bound (a surface that only just makes it is found or not by rounding)
+    whi2 = np.asarray(s.weights((o[None, :] + 0.97 * hi * g).astype(np.float32)), dtype=float)
+    return bool(np.all(wlo > 0.5 + margin) and np.all(whi < 0.5 - margin) and np.all(whi2 < 0.5 - margin))
+
+
 def _atoms_star_shaped(els, pos, lmax, radius=6.0, background=1e-5):
     """The same question for the atoms of an isolated molecule (Molecule.atomic_shape_descriptors: bounds 0.2 .. 3 vdW radii)."""
     import numpy as np
@@ -342,6 +363,14 @@ def drive(rec):
         t["poses"].append(ps)
         if ref is None:
             break
+    # an observation for TLC's domain guard: does the surface lie inside the search bounds in EVERY direction (with a margin)?
+    # Where it leaves them in a narrow cone only, whether a pose notices depends on where its grid rays point.
+    t["inside"] = True
+    if rec["kind"] == "stockholder" and ref is not None and any(ps["exc"] == "ValueError" for ps in t["poses"][1:]):
+        try:
+            t["inside"] = bool(_surface_inside_bounds(base, tuple(rec["bounds"])))
+        except Exception:
+            t["inside"] = False
     t["star"] = True
     if rec["kind"] == "mol-atomic" and ref is not None and any(ps["exc"] == "" and ps["rows"] != t["poses"][0]["rows"] for ps in t["poses"][1:]):
         # an observation for TLC's domain guard: is every atom's surface met exactly once by every ray of the transform grid?
